@@ -208,6 +208,8 @@ func (j *JsonQueryVisitorImpl) VisitAttrPath(ctx *AttrPathContext) interface{} {
 			item = j.item
 		}
 		if item == nil {
+			j.leftOp = nil
+			j.stack.clear()
 			return nil
 		}
 		m := item.(map[string]interface{})
@@ -221,6 +223,8 @@ func (j *JsonQueryVisitorImpl) VisitAttrPath(ctx *AttrPathContext) interface{} {
 		item = j.item
 	}
 	if item == nil {
+		j.leftOp = nil
+		j.stack.clear()
 		return nil
 	}
 	m := item.(map[string]interface{})
